@@ -198,7 +198,7 @@ func (r *run) start() error {
 	}
 	r.ro = ro
 	if !r.g.await(func() bool { return r.g.find("poll", "fetch") != nil }, waitFor) {
-		return errors.New("the downloader did not reach its first poll")
+		return fmt.Errorf("the downloader did not reach its first poll (fatal=%q)", fatals.get())
 	}
 	return nil
 }
